@@ -98,7 +98,7 @@ def main() -> int:
     states = trans = 0
     if replay:
         rp = json.load(open(replay))
-        jobs = [(rp["id"], rp["kind"], rp["prep"], rp["ops"])]
+        jobs = [] if (rp.get("refusal") or rp.get("deck_history")) else [(rp["id"], rp["kind"], rp["prep"], rp["ops"])]
     else:
         cfgs = [("pairs", kinds, 2)] + ([("triples", ["textbox", "table", "chart_bar", "picture", "slide", "ph_insert"], 3)] if thorough else [])
         seen = set()
@@ -134,6 +134,47 @@ def main() -> int:
     deck_traces = E.pmap(_deck_job, deck_jobs, procs=16, chunk=2)
     jobs = jobs + [(t["id"], "deck", "history", ["<history>"]) for t in deck_traces]
     traces = traces + deck_traces
+    # third host: the whole Props catalogue (C09's machine) under the XSD monitor: every in-domain, None, out-of-domain and wrong-type
+    # value of every catalogued property, on a fresh object and after an accepted assignment - accepted ones must keep the part valid
+    # ("arguments drawn from their whole documented domains"), refused ones must leave it as valid as it was
+    tab = tab + [{"name": "reject.attr", "kinds": [], "pre": [], "set": [], "clr": [], "rejects": ["ValueError", "TypeError"]},
+                 {"name": "prop.set", "kinds": [], "pre": [], "set": [], "clr": [], "rejects": []}]
+    if not replay or rp.get("refusal"):
+        from mbt.checks import c09
+        from mbt.drive import props as PD
+        pcat = PD.prepare(E.tier(), E.seed())
+        with open(os.path.join(work, "cat.json"), "w") as f:
+            json.dump(pcat, f)
+        knames = [k["kind"] for k in pcat]
+        if replay:
+            rjobs = [tuple(rp["refusal"])]
+        else:
+            rjobs = []
+            allk = list(range(1, len(pcat) + 1))
+            for name, depth in (("refsweep", 1), ("refpairs", 2)):
+                sts, acts, _r = c09.explore(work, name, depth, 1 if depth == 1 else 2, allk)
+                for i, s_ in enumerate(sts):
+                    sc = [a for a in c09.scenario(acts, s_) if a["op"] != "SaveReopen"]
+                    # every single assignment (accepted or refused); pairs: a second assignment to the SAME property after an accepted
+                    # one (an old explicit setting exists), and every out-of-domain second assignment
+                    if depth == 2 and not (sc[0]["op"] == "Set" and (sc[0]["p"] == sc[1]["p"] or sc[1]["op"] == "SetOut")):
+                        continue
+                    kn = knames[s_["k"] - 1]
+                    K = PD.RT["kinds"][kn]
+                    rjobs.append(("%s:%d" % (name, i), kn, K["deck"], K["path"], sc))
+        rtraces = E.pmap(PD.run_monitored, rjobs, procs=16, chunk=16)
+        kept = [(j, t) for j, t in zip(rjobs, rtraces) if t is not None]
+        nref = sum(1 for _, t in kept if t["steps"][0]["op"] == "reject.attr")
+        per["catalogued_property_assignments"] = {"candidates": len(rjobs), "judged": len(kept), "accepted": len(kept) - nref, "refused": nref}
+        if not replay and (nref < 50 or len(kept) - nref < 200):
+            raise E.MachineryError("vacuous: only %d refused / %d accepted property assignments observed" % (nref, len(kept) - nref))
+        for j, t in kept:
+            pr = PD.RT["kinds"][j[1]]["props"][[a for a in j[4] if a["op"] != "SaveReopen"][-1]["p"] - 1]["p"]
+            last = [a for a in j[4] if a["op"] != "SaveReopen"][-1]
+            vcls = "None" if last["op"] == "SetNone" else last["v"]["cls"] + ":" + str(last["v"]["anchor"])
+            jobs.append((t["id"], j[1], "refused" if t["steps"][0]["op"] == "reject.attr" else "assigned", ["%s.%s=%s" % (j[1], pr, vcls)]))
+            t["refusal"] = list(j)
+            traces.append(t)
     clean = lambda t: {k: v for k, v in t.items() if k in ("id", "base", "steps", "final")}  # noqa: E731
     if selftest:
         t = json.loads(json.dumps(clean(next(x for x in traces if len(x["steps"]) > 1 and x["steps"][-1]["parts"]))))
@@ -162,6 +203,8 @@ def main() -> int:
         for b in sorted(v["bad"], key=lambda x: x["k"]):
             # each step is charged only with the error signatures it introduces (an earlier step's errors persist in later verdicts)
             opname = t["steps"][b["k"] - 1]["op"] if b["at"] == "step" else "save"
+            if j[2] in ("refused", "assigned"):
+                opname = j[3][0]
             fresh = [n for n in b["new"] if (n["role"], n["sig"]) not in seen_new]
             seen_new |= {(n["role"], n["sig"]) for n in b["new"]}
             sigs = sorted({n["sig"] + "@" + ("/".join(n["role"].split("/")[2:3]) or n["role"]) for n in fresh})
@@ -171,7 +214,7 @@ def main() -> int:
             clause = "+".join(sorted(b["failing"]))
             for sg in (sigs or ["-"])[:4]:
                 rep.reject("%s@%s[%s|%s]" % (clause if sigs else "+".join(only_clause), opname, sg, j[2]),
-                           {"module": "SlideOps", "id": v["id"], "kind": j[1], "prep": j[2], "ops": j[3], "failing": b, "deck_history": t.get("h")},
+                           {"module": "SlideOps", "id": v["id"], "kind": j[1], "prep": j[2], "ops": j[3], "failing": b, "deck_history": t.get("h"), "refusal": t.get("refusal")},
                            "kind=%s prep=%s ops=%s step %d" % (j[1], j[2], j[3], b["k"]))
     unexpected = {}
     for t in traces:
